@@ -26,7 +26,7 @@ ASSUMPTIONS = ['ampycloud is deterministic given its full internal state (checke
                'subtree of identical states sound']
 REQUIRED = ['grouping_after_layering', 'reslicing_after_grouping', 'repeated_stage', 'scene_with_merge', 'scene_with_split',
             'scene_without_groups', 'closure_reached', 'refusal_prerequisite_missing',
-            'scene_two_heights_group_above_trimodal']
+            'scene_two_heights_group_above_trimodal', 'scene_levels_disagree_ncd_nsc', 'fam:regroup']
 SIZES = {'quick': 160, 'thorough': 3000}
 DEPTH = {'quick': 9, 'thorough': 14}
 MAX_STATES = 300
@@ -41,6 +41,9 @@ def plan(tier, seed):
         if fam in ('bimodal', 'chain'):
             k.update({'lookback': 100, 'bins': 0})
         out.append({'fam': fam, 's': seed, 'p': NUM, 'i': i, 'k': k, 'depth': DEPTH[tier]})
+    for i in range(8 if tier == 'quick' else 150):
+        out.append({'fam': 'regroup', 's': seed, 'p': NUM, 'i': 300000 + i, 'k': {}, 'depth': DEPTH[tier]})
+        out.append({'fam': 'nsc_levels', 's': seed, 'p': NUM, 'i': 400000 + i, 'k': {}, 'depth': DEPTH[tier]})
     for i in range(6 if tier == 'quick' else 100):
         out.append({'fam': 'tri_plus_two', 's': seed, 'p': NUM, 'i': 100000 + i, 'k': {}, 'depth': DEPTH[tier]})
         out.append({'fam': 'manysplit', 's': seed, 'p': NUM, 'i': 200000 + i, 'k': {}, 'depth': 6})
@@ -167,6 +170,8 @@ def check(desc):
             tags.add('scene_with_split')
         if can.n_groups == 0:
             tags.add('scene_without_groups')
+        if {snaps['msg_s'], snaps['msg_g'], snaps['msg_l']} >= {'NCD', 'NSC'}:
+            tags.add('scene_levels_disagree_ncd_nsc')
         if desc['fam'] == 'tri_plus_two' and (can.groups['ncomp'] == 3).any() and (can.groups['ncomp'] == 2).any():
             tags.add('scene_two_heights_group_above_trimodal')
 
